@@ -420,6 +420,9 @@ pub fn twoconv_strategy() -> impl Strategy<Value = TwoConv> {
 pub struct NamesRow {
     pub groups: Vec<Vec<Part>>,
     pub conv: Option<(u8, u8)>,
+    /// evaluate under tr (unit words of that language, no conversion)
+    #[serde(default)]
+    pub tr: bool,
 }
 
 pub struct NamesInARow;
@@ -430,20 +433,21 @@ impl Prop for NamesInARow {
         "duration-names-in-a-row"
     }
     fn check(&self, w: &mut Worker, c: &NamesRow) -> Verdict {
-        const NAMES: [&str; 5] = ["leg one", "stop", "leg two", "wait", "return trip"];
+        const NAMES: [&str; 7] = ["leg one", "stop", "leg two", "wait", "return trip", "detour", "layover"];
         let cfg = Cfg::default();
-        let words = |g: &Vec<Part>| -> String { g.iter().flat_map(|p| p.toks("en")).map(|t| t.text(",", ".")).collect::<Vec<_>>().join(" ") };
-        let mut lines: Vec<String> = c.groups.iter().enumerate().map(|(i, g)| format!("{} = {}", NAMES[i % 5], words(g))).collect();
-        let mut last = (0..c.groups.len()).map(|i| NAMES[i % 5]).collect::<Vec<_>>().join(" ");
+        let lang = if c.tr { "tr" } else { "en" };
+        let words = |g: &Vec<Part>| -> String { g.iter().flat_map(|p| p.toks(lang)).map(|t| t.text(",", ".")).collect::<Vec<_>>().join(" ") };
+        let mut lines: Vec<String> = c.groups.iter().enumerate().map(|(i, g)| format!("{} = {}", NAMES[i % 7], words(g))).collect();
+        let mut last = (0..c.groups.len()).map(|i| NAMES[i % 7]).collect::<Vec<_>>().join(" ");
         let mut exp: i64 = c.groups.iter().flatten().map(|p| p.seconds()).sum();
-        if let Some((conn, unit)) = c.conv {
+        if let (Some((conn, unit)), false) = (c.conv, c.tr) {
             last.push_str(&format!(" {} {}", CONV_WORDS[conn as usize % 4], spellings("en", unit)[0]));
             exp = floor_to(exp, unit);
         }
         lines.push(last);
         let text = lines.join("\n");
-        let rendered = text.replace('\n', " ; ");
-        let out = match w.eval(&cfg, "en", &text) {
+        let rendered = format!("[{}] {}", lang, text.replace('\n', " ; "));
+        let out = match w.eval(&cfg, lang, &text) {
             Ok(o) => o,
             Err(p) => return Verdict::fail(format!("panic at {}: {}", p.site, p.message), rendered),
         };
@@ -454,7 +458,7 @@ impl Prop for NamesInARow {
                 acc.fail(format!("expected Duration({} s) got {:?}", exp, other.map(|s| s.brief())))
             }
         }
-        acc.finish(rendered).nt(true).class("duration-names-in-a-row").class_if(c.groups.len() % 2 == 1, "odd-number-of-names").class_if(c.conv.is_some(), "followed-by-a-conversion")
+        acc.finish(rendered).nt(true).class("duration-names-in-a-row").class_if(c.groups.len() % 2 == 1, "odd-number-of-names").class_if(c.conv.is_some() && !c.tr, "followed-by-a-conversion").class_if(c.tr, "lang:tr").class_if(c.groups.len() >= 6, "six-or-seven-names")
     }
 }
 
@@ -465,11 +469,11 @@ pub fn namesrow_strategy() -> impl Strategy<Value = NamesRow> {
         v.dedup_by_key(|p| p.unit);
         v
     });
-    (prop::collection::vec(group(), 2..=5), prop::option::weighted(0.6, (0u8..4, 0u8..5))).prop_map(|(groups, conv)| NamesRow { groups, conv })
+    (prop::collection::vec(group(), 2..=7), prop::option::weighted(0.6, (0u8..4, 0u8..5)), prop::bool::weighted(0.3)).prop_map(|(groups, conv, tr)| NamesRow { groups, conv, tr })
 }
 
 pub fn run(ctx: &Ctx) {
-    ctx.rule("generated: 1-3 groups of 1-4 juxtaposed '(count unit)' parts (<= 7 parts), groups joined by + or -, counts 0..10^6 biased to carry boundaries (59/60/61, 23/24/25, 6/7/8, 29/30/31, 364/365/366, 11/12/13), every unit spelling of en and tr, optional 'as|to|in|into seconds|minutes|hours|days|weeks' (en); exhaustive table unit x spelling x boundary count x target; the first part - or only its count - also held in a name bound on an earlier line; a fifth of the cases under a random number format (the counts of a printed duration are whole numbers whatever it says); two to five names bound to durations written side by side, optionally followed by 'as unit'; several conversions on one line ('G1 as u1 +- G2 as u2', 'G as u1 as u2', sources also held in names: every conversion floors the duration it stands next to); oracle: hard-coded unit lengths (60, 3600, 86400, 7 d, 30 d, 365 d, N months = 365*(N div 12)+30*(N mod 12) days), exact integer seconds; printed form parsed back with the language's own words: singular iff count = 1, strictly descending units, parts sum to the magnitude and equal the greedy decomposition; 'as' = floor(|D|/len)*len; non-trivial = >= 2 parts of different units, or a carry-boundary count, or an inexact 'as' quotient");
+    ctx.rule("generated: 1-3 groups of 1-4 juxtaposed '(count unit)' parts (<= 7 parts), groups joined by + or -, counts 0..10^6 biased to carry boundaries (59/60/61, 23/24/25, 6/7/8, 29/30/31, 364/365/366, 11/12/13), every unit spelling of en and tr, optional 'as|to|in|into seconds|minutes|hours|days|weeks' (en); exhaustive table unit x spelling x boundary count x target; the first part - or only its count - also held in a name bound on an earlier line; a fifth of the cases under a random number format (the counts of a printed duration are whole numbers whatever it says); two to seven names bound to durations written side by side (en and tr), optionally followed by 'as unit'; several conversions on one line ('G1 as u1 +- G2 as u2', 'G as u1 as u2', sources also held in names: every conversion floors the duration it stands next to); oracle: hard-coded unit lengths (60, 3600, 86400, 7 d, 30 d, 365 d, N months = 365*(N div 12)+30*(N mod 12) days), exact integer seconds; printed form parsed back with the language's own words: singular iff count = 1, strictly descending units, parts sum to the magnitude and equal the greedy decomposition; 'as' = floor(|D|/len)*len; non-trivial = >= 2 parts of different units, or a carry-boundary count, or an inexact 'as' quotient");
     ctx.assume("a zero duration prints the empty string (the sum of no parts); negative results print their magnitude; 'as months|years' is outside the statement");
     ctx.run_table(&Durations, "boundary-grid", table(), true);
     ctx.run_generated(&Durations, ctx.tier.pick(150_000, 1_500_000), case_strategy);
